@@ -3,6 +3,8 @@
 package main
 
 import (
+	"encoding/hex"
+	"crypto/sha256"
 	"encoding/binary"
 	"context"
 	"fmt"
@@ -217,6 +219,15 @@ type c06Case struct {
 	// (+ maybe one scattered later chunk) | "nozero" = chunk 0 missing, a run of
 	// later chunks recorded | "scattered" = random subset
 	Marks string `json:"marks,omitempty"`
+	// Source: what happened to the SOURCE between the two sessions: "" |
+	// "rewritten" (big.bin rewritten in place, same size, later mtime) |
+	// "link-target-rewritten" (the tree holds a symlink to a regular file
+	// outside it; that file is rewritten in place, same size, later mtime)
+	Source string `json:"source,omitempty"`
+	// HoldEnd: the sender's FileEnd of the damaged file is held for 250 ms, so
+	// that it cannot overtake a re-sent chunk (the recorded race is excluded:
+	// a repair that is still lost was dropped, not late)
+	HoldEnd bool `json:"hold_end,omitempty"`
 	Streams int    `json:"streams"`
 	CS      uint32 `json:"cs"`
 	TSeed   uint64 `json:"tseed"`
@@ -236,6 +247,13 @@ func c06Key(c c06Case, o c06Out) string {
 		}
 		return "lastchunk-damage-not-detected:" + st
 	}
+	if c.Data == "lastchunk" && c.HoldEnd {
+		st := "partial"
+		if o.allMarked {
+			st = "all-chunks-marked"
+		}
+		return "lastchunk-repair-dropped-before-fileend:" + st
+	}
 	if c.Data == "lastchunk" {
 		// the class is decided by the state the resumed run started from
 		switch {
@@ -246,6 +264,9 @@ func c06Key(c c06Case, o c06Out) string {
 		default:
 			return "lastchunk-repair-lost:partial:natural-timing"
 		}
+	}
+	if c.Source != "" {
+		return "source-" + c.Source + ":stale-chunks-kept"
 	}
 	if c.Sidecar == "foreign-samecount" {
 		return "sidecar-foreign-chunk-size-same-count:data-file-" + c.Data
@@ -296,6 +317,12 @@ func runC06(e *Env) {
 			for k := 0; k < e.Pick(6, 24); k++ {
 				add(c06Case{First: first, Sidecar: "kept", Data: "lastchunk", DmgOff: r.Intn(1000)})
 			}
+			// the source itself changed between the sessions (same size, later mtime)
+			for _, srcv := range []string{"rewritten", "link-target-rewritten"} {
+				for k := 0; k < e.Pick(2, 8); k++ {
+					add(c06Case{First: first, Sidecar: "kept", Data: "kept", Source: srcv})
+				}
+			}
 			if first == "partial" {
 				// recorded sets that are not a prefix
 				for _, mk := range []string{"nozero", "scattered"} {
@@ -309,6 +336,12 @@ func runC06(e *Env) {
 		}
 	}
 	var held []c06Case
+	// FileEnd held behind the repair, every chunk recorded (with chunks still
+	// missing the receiver finalises on its own counter, not on FileEnd, and the
+	// recorded race remains possible)
+	for k := 0; k < e.Pick(6, 30); k++ {
+		held = append(held, c06Case{First: "complete", Sidecar: "kept", Data: "lastchunk", DmgOff: r.Intn(1000), HoldEnd: true, Streams: 1 + r.Intn(3)})
+	}
 	for k := 0; k < e.Pick(4, 40); k++ {
 		held = append(held, c06Case{First: "partial", Sidecar: "kept", Data: "lastchunk", DmgOff: r.Intn(1000), Hold: true, Streams: 1 + r.Intn(2)})
 	}
@@ -326,7 +359,7 @@ func runC06(e *Env) {
 			e.R.Count("tamper_not_applicable")
 			return
 		}
-		e.R.Distinct(fmt.Sprintf("%s%s/%s/%s/off%d/hold%v/cs%d/s%d", c.First, c.Marks, c.Sidecar, c.Data, c.DmgOff%int(c.CS), c.Hold, c.CS, c.Streams))
+		e.R.Distinct(fmt.Sprintf("%s%s/%s/%s/src=%s/off%d/hold%v/cs%d/s%d", c.First, c.Marks, c.Sidecar, c.Data, c.Source, c.DmgOff%int(c.CS), c.Hold || c.HoldEnd, c.CS, c.Streams))
 		res := o.res
 		mu.Lock()
 		switch {
@@ -411,6 +444,20 @@ func runC06Case(e *Env, lp *vk.ListenerPool, c c06Case) c06Out {
 	outDir := filepath.Join(base, "out")
 	_ = os.MkdirAll(outDir, 0755)
 	cfg := vk.XferCfg{Transport: "quic", Conns: 1, Streams: c.Streams, ChunkSize: c.CS, Resume: true, NoRootDir: true, ScanPaths: true, WatchdogMs: 9000}
+	// a file of the tree that is a symlink to a regular file outside it
+	linkTarget := filepath.Join(base, "target-of-link.bin")
+	linkSize := cs*6 + cs/2
+	var linkContent []byte
+	if c.Source == "link-target-rewritten" {
+		linkContent = vk.NewRng(c.TSeed ^ 0x11).Bytes(int(linkSize))
+		_ = os.WriteFile(linkTarget, linkContent, 0644)
+		old := time.Now().Add(-time.Hour)
+		_ = os.Chtimes(linkTarget, old, old)
+		if err := os.Symlink(linkTarget, filepath.Join(src, "link.bin")); err != nil {
+			out.setup = err.Error()
+			return out
+		}
+	}
 
 	// ---- first transfer (always run to completion; a partial state is
 	// synthesised below so that the marked set is controlled exactly)
@@ -591,6 +638,23 @@ func runC06Case(e *Env, lp *vk.ListenerPool, c c06Case) c06Out {
 		out.note += fmt.Sprintf("; damaged byte %d (chunk %d)", pos, highest)
 	}
 
+	// ---- the source changes between the sessions
+	changed := map[string][]byte{} // path inside the tree -> new content
+	switch c.Source {
+	case "rewritten":
+		nb := vk.NewRng(c.TSeed ^ 0x22).Bytes(int(cs*9 + cs/3))
+		p := filepath.Join(src, "big.bin")
+		_ = os.WriteFile(p, nb, 0644)
+		later := time.Now().Add(10 * time.Second)
+		_ = os.Chtimes(p, later, later)
+		changed["big.bin"] = nb
+	case "link-target-rewritten":
+		nb := vk.NewRng(c.TSeed ^ 0x33).Bytes(int(linkSize))
+		_ = os.WriteFile(linkTarget, nb, 0644)
+		later := time.Now().Add(10 * time.Second)
+		_ = os.Chtimes(linkTarget, later, later)
+		changed["link.bin"] = nb
+	}
 	// ---- resumed transfer
 	cfg2 := cfg
 	cfg2.SendDeco = &vk.Deco{RecordAll: c.Data == "lastchunk"}
@@ -626,6 +690,14 @@ func runC06Case(e *Env, lp *vk.ListenerPool, c c06Case) c06Out {
 		defer verifhook.Set("send.chunk.afterFrame", nil)
 		defer verifhook.Set("send.verify.beforeHash", nil)
 	}
+	if c.HoldEnd {
+		verifhook.Set("send.fileEnd.before", func(ev verifhook.Event) {
+			if ev.A == bigKey {
+				time.Sleep(250 * time.Millisecond)
+			}
+		})
+		defer verifhook.Set("send.fileEnd.before", nil)
+	}
 	res := vk.RunTransfer(context.Background(), cfg2, lp, src, outDir)
 	out.res = res
 	if c.Data == "lastchunk" && highest >= 0 {
@@ -637,7 +709,15 @@ func runC06Case(e *Env, lp *vk.ListenerPool, c c06Case) c06Out {
 			out.setup = err.Error()
 			return out
 		}
-		out.diff = vk.DiffDigest(vk.ExpectedDigest(tree, res.Prefix), got)
+		want := vk.ExpectedDigest(tree, res.Prefix)
+		if c.Source == "link-target-rewritten" && len(changed) == 0 {
+			changed["link.bin"] = linkContent
+		}
+		for rel, b := range changed {
+			sum := sha256.Sum256(b)
+			want[res.Prefix+rel] = vk.DigestEntry{Kind: "file", Size: int64(len(b)), Sum: hex.EncodeToString(sum[:12])}
+		}
+		out.diff = vk.DiffDigest(want, got)
 	}
 	return out
 }
